@@ -178,7 +178,7 @@ static void gen(void) {
     for (int fn = 0; fn < F_NUM; fn++) for (size_t n = 0; n <= (fn >= F_WCRTOMB ? 1 : maxn); n++) { unsigned long tot = 1; for (size_t i = 0; i < n; i++) tot *= 4;
         for (unsigned long code = 0; code < tot; code++) for (int inv = 0; inv < 6; inv++) for (size_t ip = 0; ip < (inv ? (n ? n : 1) : 1); ip++)
         for (int lenv = 0; lenv < (fn >= F_WCRTOMB ? 1 : 4); lenv++) for (int dmv = 0; dmv < 4; dmv++) for (int dnull = 0; dnull < 2; dnull++) {
-            if (inv && n == 0) continue; if (dnull && dmv) continue;
+            if (inv && n == 0) continue; if (dnull && dmv) continue;   /* a null dest with dmax != 0 violates K.3.6.5.x ("if dst is a null pointer, dstmax shall equal zero"): not valid input */
             if (inv && fn >= F_WCSTOMBS && inv < 4) continue;            /* wide invalid values: surrogate, above 10FFFF */
             long my = idx++; if (g_only_idx >= 0 ? my != g_only_idx : (my % g_nw != g_wid || my < g_skip_below)) continue;
             memset(&s, 0, sizeof s); s.fn = fn; s.n = n; unsigned long c = code; for (size_t i = 0; i < n; i++) { s.cp[i] = CPS[c % 4]; c /= 4; }
